@@ -7,6 +7,8 @@ package jobctl
 import (
 	"fmt"
 	"sort"
+	"strconv"
+	"strings"
 
 	v1 "k8s.io/api/core/v1"
 	metav1 "k8s.io/apimachinery/pkg/apis/meta/v1"
@@ -65,7 +67,7 @@ type Pod struct {
 	Del, Oos         bool
 }
 
-type Fault struct{ Kind, A, B int64 } // 1 create(t,i) 2 delete(t,i) 3 patch(t,i) 4 status(n)
+type Fault struct{ Kind, A, B int64 } // 1 create(t,i) 2 delete(t,i) 3 patch(t,i) 4 status(n) 5 pg-create(errkind) 6 pg-update(errkind)
 
 type Req struct {
 	Event    int64
@@ -79,7 +81,7 @@ type Req struct {
 }
 
 type Op struct {
-	Code int64 // 1 req 2 podphase 3 poddeleting 4 podgone 5 pgphase 6 syncjob 7 syncpods 8 syncpg 9 setspec
+	Code int64 // 1 req 2 podphase 3 poddeleting 4 podgone 5 pgphase 6 syncjob 7 syncpods 8 syncpg 9 setspec 10 restart 11 replacejob 12 jobdeleting 13 stalejob
 	Req  Req
 	T, I int64
 	Ph   int64
@@ -87,11 +89,12 @@ type Op struct {
 }
 
 type History struct {
-	Spec   Spec
-	Status Status
-	Pods   []Pod
-	Pg     *int64 // nil: no PodGroup; 0 "" 1 Pending 2 Inqueue 3 Running 4 Unknown 5 Completed
-	Ops    []Op
+	Spec    Spec
+	Status  Status
+	Pods    []Pod
+	Pg      *int64 // nil: no PodGroup; 0 "" 1 Pending 2 Inqueue 3 Running 4 Unknown 5 Completed
+	NoQueue bool   // the job's queue is missing from the queue lister
+	Ops     []Op
 }
 
 var PgPhaseNames = []scheduling.PodGroupPhase{"", scheduling.PodGroupPending, scheduling.PodGroupInqueue, scheduling.PodGroupRunning,
@@ -280,7 +283,7 @@ func (w *W) Op(o Op) {
 		w.Z(o.T, o.I)
 	case 5:
 		w.Z(o.Ph)
-	case 9:
+	case 9, 11:
 		w.Spec(o.Spec)
 	}
 }
@@ -327,8 +330,8 @@ func (r *R) Op() Op {
 		o.T, o.I = r.Z(), r.Z()
 	case 5:
 		o.Ph = r.Z()
-	case 6, 7, 8:
-	case 9:
+	case 6, 7, 8, 10, 12, 13:
+	case 9, 11:
 		o.Spec = r.Spec()
 	default:
 		panic(fmt.Sprint("bad op code ", o.Code))
@@ -341,6 +344,7 @@ func (w *W) History(h History) {
 	w.Status(h.Status)
 	w.Pods(h.Pods)
 	w.Opt(h.Pg)
+	w.B(!h.NoQueue)
 	w.Z(int64(len(h.Ops)))
 	for _, o := range h.Ops {
 		w.Op(o)
@@ -352,6 +356,7 @@ func (r *R) History() History {
 	h.Status = r.Status()
 	h.Pods = r.Pods()
 	h.Pg = r.Opt()
+	h.NoQueue = !r.B()
 	n := int(r.Z())
 	for i := 0; i < n; i++ {
 		h.Ops = append(h.Ops, r.Op())
@@ -484,18 +489,83 @@ func pgCode(pg *scheduling.PodGroup) *int64 {
 
 // Obs is what is observed after one step.
 type Obs struct {
-	Err      bool
-	Wrote    bool // a job UpdateStatus call succeeded in this step
-	Status   Status
-	Cache    Status // the job status in the controller's cache
-	Pods     []Pod
-	Pg       *int64
+	Err    bool
+	Wrote  bool // a job UpdateStatus call succeeded in this step
+	Status Status
+	Cache  Status // the job status in the controller's cache
+	Pods   []Pod
+	Pg     *int64
 	// not part of the model encoding; for the Go-side laws
 	Created []*v1.Pod
 	Calls   []Call
-	// before the step: did the controller's pod view equal the API server's pods,
-	// and did the PodGroup lister show a PodGroup past Pending
-	FreshBefore, PgViewBefore bool
+	// before the step (harness side, independent of what the cache made of the deliveries):
+	// every current API pod has been delivered, the job is known to the controller and not
+	// shown as terminating / the PodGroup lister shows a PodGroup past Pending / the delivered
+	// job and PodGroup are the API server's current ones
+	FreshBefore, PgViewBefore, JobFreshBefore, PgFreshBefore bool
+	// the PodGroup on the API server after the step (EncPG encoding; nil: none), whether its
+	// queue / owner reference / sub-group policy are as expected, and whether a PodGroup
+	// write was refused in this step
+	PgFields      []int64
+	JobUID        string // uid of the job incarnation at this step
+	PgMetaOK      bool
+	PgWriteFailed bool
+}
+
+func pcCode(name string) int64 {
+	if name == "" {
+		return 0
+	}
+	k, err := strconv.ParseInt(strings.TrimPrefix(name, "pc"), 10, 64)
+	if err != nil {
+		panic("unexpected priority class " + name)
+	}
+	return k
+}
+
+// ResOf reads (pods, milli-cpu, Mi) of a resource list.
+func ResOf(rl *v1.ResourceList) []int64 {
+	if rl == nil {
+		return []int64{0, 0, 0}
+	}
+	get := func(n v1.ResourceName) int64 {
+		q, ok := (*rl)[n]
+		if !ok {
+			return 0
+		}
+		if n == v1.ResourceCPU {
+			return q.MilliValue()
+		}
+		return q.Value()
+	}
+	mem := get(v1.ResourceMemory)
+	if mem%(1<<20) != 0 {
+		panic("memory left the Mi grid")
+	}
+	return []int64{get(v1.ResourcePods), get(v1.ResourceCPU), mem >> 20}
+}
+
+// EncPG: minMember, MinTaskMember sorted by task, priority class code, minResources.
+func EncPG(pg *scheduling.PodGroup) []int64 {
+	out := []int64{int64(pg.Spec.MinMember)}
+	type kv struct{ k, v int64 }
+	var kvs []kv
+	for n, v := range pg.Spec.MinTaskMember {
+		kvs = append(kvs, kv{TaskID(n), int64(v)})
+	}
+	sort.Slice(kvs, func(i, j int) bool { return kvs[i].k < kvs[j].k })
+	out = append(out, int64(len(kvs)))
+	for _, e := range kvs {
+		out = append(out, e.k, e.v)
+	}
+	out = append(out, pcCode(pg.Spec.PriorityClassName))
+	return append(out, ResOf(pg.Spec.MinResources)...)
+}
+
+// PGMetaOK: queue, controller owner reference and (no partition policies) empty SubGroupPolicy.
+func PGMetaOK(pg *scheduling.PodGroup) bool {
+	return pg.Spec.Queue == QueueName && len(pg.OwnerReferences) == 1 && string(pg.OwnerReferences[0].UID) == JobUID &&
+		len(pg.Spec.SubGroupPolicy) == 0
 }
 
 var caseSeq int
@@ -506,19 +576,22 @@ func (e *Env) Setup(h History) (ns string) {
 	caseSeq++
 	ns = fmt.Sprintf("n%d", caseSeq)
 	e.BeginStep()
+	resetJobUID()
+	e.dJob, e.dPG, e.jobDelivered, e.prevJob = nil, nil, false, nil
+	e.dPods = map[string]*v1.Pod{}
+	qix := e.Ctl.VerifQueueIndexer()
+	if obj, ok, _ := qix.GetByKey(QueueName); ok {
+		must(qix.Delete(obj))
+	}
+	if !h.NoQueue {
+		must(qix.Add(&scheduling.Queue{ObjectMeta: metav1.ObjectMeta{Name: QueueName}}))
+	}
 	j := NewJob(ns)
 	j.Spec = GoSpec(h.Spec)
 	j.Status = GoStatus(h.Status)
 	e.APIAddJob(j)
 	for _, p := range h.Pods {
 		e.APIAddPod(NewPod(ns, p.Task, p.Idx, PodPhaseNames[p.Phase], p.Del, p.Oos, h.Status.Version))
-	}
-	// priority classes used by the spec (cluster scoped; same definition in every case)
-	for k := int64(1); k <= 4; k++ {
-		ix := e.Ctl.VerifPriorityClassIndexer()
-		if _, ok, _ := ix.GetByKey(PCName(k)); !ok {
-			must(ix.Add(NewPriorityClass(PCName(k), int32(k*10))))
-		}
 	}
 	e.SyncJob(ns)
 	e.SyncPods(ns)
@@ -535,9 +608,24 @@ func (e *Env) Setup(h History) (ns string) {
 }
 
 func (e *Env) observe(ns string, err bool) Obs {
-	return Obs{Err: err, Wrote: e.CountCalls("update", "jobs", "status", true) > 0,
-		Status: ModelStatus(e.APIJob(ns).Status), Cache: ModelStatus(e.CacheJob(ns).Status),
-		Pods: ModelPods(e.APIPods(ns)), Pg: pgCode(e.APIPodGroup(ns)), Created: e.Created, Calls: e.Calls}
+	o := Obs{Err: err, Wrote: e.CountCalls("update", "jobs", "status", true) > 0,
+		Status: ModelStatus(e.APIJob(ns).Status), Cache: e.cacheStatus(ns),
+		Pods: ModelPods(e.APIPods(ns)), Pg: pgCode(e.APIPodGroup(ns)), Created: e.Created, Calls: e.Calls,
+		PgWriteFailed: e.FailedCalls("podgroups") > 0, PgMetaOK: true, JobUID: JobUID}
+	if pg := e.APIPodGroup(ns); pg != nil {
+		o.PgFields = EncPG(pg)
+		o.PgMetaOK = PGMetaOK(pg)
+	}
+	return o
+}
+
+// the job status the controller holds; when its cache has no Job (restart, re-creation)
+// the last one it held is reported (the model keeps it as well, unused)
+func (e *Env) cacheStatus(ns string) Status {
+	if j := e.CacheJob(ns); j != nil {
+		e.lastCache = ModelStatus(j.Status)
+	}
+	return e.lastCache
 }
 
 func GoReq(ns string, q Req) apis.Request {
@@ -565,7 +653,8 @@ func GoReq(ns string, q Req) apis.Request {
 func (e *Env) Step(ns string, o Op) Obs {
 	e.BeginStep()
 	failed := false
-	fresh := SamePods(ModelPods(e.ViewPods(ns)), ModelPods(e.APIPods(ns)))
+	fresh := e.PodsDelivered(ns) && e.JobKnown() && !e.JobViewDeleting()
+	jobFresh, pgFresh := e.JobViewFresh(ns), e.PgViewFresh(ns)
 	pgv := false
 	if pg := e.ViewPodGroup(ns); pg != nil && pg.Status.Phase != "" && pg.Status.Phase != scheduling.PodGroupPending {
 		pgv = true
@@ -582,6 +671,10 @@ func (e *Env) Step(ns string, o Op) Obs {
 				e.FailPatch[PodName(f.A, f.B)] = true
 			case 4:
 				e.FailStatus[int(f.A)] = true
+			case 5:
+				e.FailPgCreate = int(f.A)
+			case 6:
+				e.FailPgUpdate = int(f.A)
 			}
 		}
 		failed = e.ProcessReq(GoReq(ns, o.Req))
@@ -614,9 +707,17 @@ func (e *Env) Step(ns string, o Op) Obs {
 		e.SyncPodGroup(ns)
 	case 9:
 		e.APISetJobSpec(ns, GoSpec(o.Spec))
+	case 10:
+		e.Restart(ns)
+	case 11:
+		e.ReplaceJob(ns, GoSpec(o.Spec))
+	case 12:
+		e.JobDeleting(ns)
+	case 13:
+		e.StaleJob(ns)
 	}
 	ob := e.observe(ns, failed)
-	ob.FreshBefore, ob.PgViewBefore = fresh, pgv
+	ob.FreshBefore, ob.PgViewBefore, ob.JobFreshBefore, ob.PgFreshBefore = fresh, pgv, jobFresh, pgFresh
 	return ob
 }
 
